@@ -507,6 +507,24 @@ def listing_truth(sess: Session, built: Built):
             if bool(af.is_directory) != (m.kind == "dir") or af.uncompressed != size:
                 probs.append(("files.meta", "%r: files entry (is_directory=%r, uncompressed=%r) vs %s of %d bytes" % (m.name, af.is_directory, af.uncompressed, m.kind, size)))
                 break
+    # the member list walked while other listing calls are made, and walked twice at once: every walk sees every member once
+    try:
+        walked = []
+        for k, f in enumerate(z.files):
+            walked.append(f.filename)
+            if k % 2 == 0:
+                z.getnames()
+            else:
+                z.list()
+            if k == 1 and names:
+                z.getinfo(names[-1])
+        if walked != names:
+            probs.append(("files.interleaved", "walking files while calling getnames()/list()/getinfo() yielded %r, stored order %r" % (_short(walked), _short(names))))
+        pairs = [(a.filename, b.filename) for a, b in zip(z.files, z.files)]
+        if pairs != [(n, n) for n in names]:
+            probs.append(("files.interleaved", "two simultaneous walks over files yielded %r" % (_short(pairs),)))
+    except Exception as e:
+        probs.append(("files.interleaved", "walking files while listing raised %r" % e))
     for m in model[:6]:
         for nm in (m.name, m.name + "/"):
             try:
